@@ -384,3 +384,24 @@ for _p, _t in {
  'C20': ' A proxy call reads its reply before anything else; RebuildProxy takes no reference while inheriting.',
 }.items():
     ADDED[_p] = ADDED.get(_p, '') + _t
+
+# round 9 / mutation sweep (DESIGN sections 25-27): one sentence per property, appended to ADDED
+_R9 = {
+ 'C01': 'Pool-made failures are records of a live exception of the right type; a job past its hard limit is failed whether or not its worker is still listed; every executed job sends one READY or the worker dies.',
+ 'C02': 'MapResult counts each part once before the zero test and becomes ready on success only when none is left; a result reaches its handle whatever the per-worker tables hold.',
+ 'C03': 'A refused (NACKed) job gets no owner pid / acceptance time on any path of _ack.',
+ 'C04': 'worker_pids() of every handle class answers with the owners _ack recorded; the lost-worker failure is a live WorkerLostError.',
+ 'C05': 'A pending job past its hard limit is always failed (only the kill depends on finding the process); no pass of the scanner skips the walk over the cache.',
+ 'C06': 'No scanner pass skips the walk over the cache; a refused job has no owner whose next job the soft limit could hit.',
+ 'C07': 'A worker that reads the sentinel / a dead pipe / a set restart event leaves (SystemExit on every path); a new worker is listed before it is started; only restart() sets a worker\'s shutdown event.',
+ 'C08': 'terminate()/close() of a pool thread publish TERMINATE/CLOSE; with the exit-requested flag set the worker never reaches the next job; _should_override_term_signal decided as a truth table; no termination signal is ever set to SIG_IGN in worker code; worker listed before started.',
+ 'C09': 'Every supervisor iteration that finds thread and pool running calls _maintain_pool(); RawValue zero-fills (per-worker counters); Popen.terminate sends the remappable TERM_SIGNAL.',
+ 'C11': 'A refused restart closes the pool and is re-raised out of the supervisor; the window expires by the clock alone (its reset is not behind the budget test).',
+ 'C13': 'Header encode/decode are compared in one normal form (struct formats; int.to_bytes/from_bytes read as the equivalent format incl. signedness).',
+ 'C14': 'The block recorded for a new arena has exactly the size the arena was built with.',
+ 'C16': 'Nothing can refuse an item between taking a place in the capacity semaphore and appending it; the base SimpleQueue touches the pipe only inside the hooks the locked subclass overrides.',
+ 'C19': 'connection.wait polls once for a non-positive timeout; no deadline in the waiting code is taken from time.time().',
+ 'C20': 'A forked child clears inherited finalizers before the after-fork hooks run; register() un-shares the registry by a test on the class\'s own namespace.',
+}
+for _k, _v in _R9.items():
+    ADDED[_k] = (ADDED.get(_k, '') + ' ' + _v).strip()
